@@ -622,7 +622,7 @@ func generateProbe() map[string][]byte {
 		fail("probe document: generator: %v", err)
 	}
 	fs := &probeFS{files: map[string][]byte{}}
-	if err := g.WriteSource(fs, "api"); err != nil {
+	if err := g.WriteSource(&lockedProbeFS{in: fs}, "api"); err != nil {
 		fail("probe document: write: %v", err)
 	}
 	return fs.files
@@ -964,6 +964,250 @@ func factsGenOrder(repo string) (string, int) {
 	return sb.String(), len(names) + 1
 }
 
+// ---- conc: writes to package-level variables outside init (C19) ----
+
+// globalWrites lists, for the Go files given (one package), every statement outside `init` functions and
+// outside package-level initialisers that writes through a package-level variable: assignment to it / to an
+// element, field or dereference of it, ++/--, taking its address, delete / clear / copy into it.
+func globalWrites(fset *token.FileSet, files []*ast.File) []string {
+	pkgVars := map[string]bool{}
+	topSpec := map[*ast.ValueSpec]bool{}
+	for _, f := range files {
+		for _, d := range f.Decls {
+			gd, ok := d.(*ast.GenDecl)
+			if !ok || gd.Tok != token.VAR {
+				continue
+			}
+			for _, sp := range gd.Specs {
+				vs := sp.(*ast.ValueSpec)
+				topSpec[vs] = true
+				for _, n := range vs.Names {
+					if n.Name != "_" {
+						pkgVars[n.Name] = true
+					}
+				}
+			}
+		}
+	}
+	isGlobal := func(id *ast.Ident) bool {
+		if !pkgVars[id.Name] {
+			return false
+		}
+		if id.Obj == nil {
+			return true // declared in another file of the package
+		}
+		vs, ok := id.Obj.Decl.(*ast.ValueSpec)
+		return ok && topSpec[vs]
+	}
+	// root identifier of an lvalue-ish expression
+	var root func(e ast.Expr) *ast.Ident
+	root = func(e ast.Expr) *ast.Ident {
+		switch x := e.(type) {
+		case *ast.Ident:
+			return x
+		case *ast.IndexExpr:
+			return root(x.X)
+		case *ast.SelectorExpr:
+			return root(x.X)
+		case *ast.StarExpr:
+			return root(x.X)
+		case *ast.ParenExpr:
+			return root(x.X)
+		case *ast.SliceExpr:
+			return root(x.X)
+		}
+		return nil
+	}
+	var out []string
+	for _, f := range files {
+		for _, d := range f.Decls {
+			fd, ok := d.(*ast.FuncDecl)
+			if !ok || fd.Body == nil || (fd.Name.Name == "init" && fd.Recv == nil) {
+				continue
+			}
+			fn := fd.Name.Name
+			if fd.Recv != nil && len(fd.Recv.List) > 0 {
+				fn = exprString(fd.Recv.List[0].Type) + "." + fn
+			}
+			report := func(pos token.Pos, what string, id *ast.Ident) {
+				out = append(out, fmt.Sprintf("%s: %s %s in %s", filepath.Base(fset.Position(pos).Filename), what, id.Name, fn))
+			}
+			ast.Inspect(fd.Body, func(n ast.Node) bool {
+				switch x := n.(type) {
+				case *ast.AssignStmt:
+					if x.Tok == token.DEFINE {
+						return true
+					}
+					for _, l := range x.Lhs {
+						if id := root(l); id != nil && isGlobal(id) {
+							report(x.Pos(), "assignment through", id)
+						}
+					}
+				case *ast.IncDecStmt:
+					if id := root(x.X); id != nil && isGlobal(id) {
+						report(x.Pos(), "inc/dec of", id)
+					}
+				case *ast.UnaryExpr:
+					if x.Op == token.AND {
+						if id := root(x.X); id != nil && isGlobal(id) {
+							report(x.Pos(), "address of", id)
+						}
+					}
+				case *ast.RangeStmt:
+					if x.Tok == token.ASSIGN {
+						for _, e := range []ast.Expr{x.Key, x.Value} {
+							if e == nil {
+								continue
+							}
+							if id := root(e); id != nil && isGlobal(id) {
+								report(x.Pos(), "range assignment to", id)
+							}
+						}
+					}
+				case *ast.CallExpr:
+					if fnid, ok := x.Fun.(*ast.Ident); ok && len(x.Args) > 0 {
+						switch fnid.Name {
+						case "delete", "clear", "copy":
+							if id := root(x.Args[0]); id != nil && isGlobal(id) {
+								report(x.Pos(), fnid.Name+" on", id)
+							}
+						}
+					}
+				}
+				return true
+			})
+		}
+	}
+	sort.Strings(out)
+	return out
+}
+
+func exprString(e ast.Expr) string {
+	switch x := e.(type) {
+	case *ast.Ident:
+		return x.Name
+	case *ast.StarExpr:
+		return exprString(x.X)
+	case *ast.IndexExpr:
+		return exprString(x.X)
+	case *ast.IndexListExpr:
+		return exprString(x.X)
+	}
+	return "?"
+}
+
+func parseDirNoTests(dir string) (*token.FileSet, []*ast.File) {
+	fset := token.NewFileSet()
+	ents, err := os.ReadDir(dir)
+	if err != nil {
+		fail("read %s: %v", dir, err)
+	}
+	var files []*ast.File
+	for _, e := range ents {
+		n := e.Name()
+		if e.IsDir() || !strings.HasSuffix(n, ".go") || strings.HasSuffix(n, "_test.go") || strings.HasPrefix(n, "verif_") {
+			continue
+		}
+		f, err := parser.ParseFile(fset, filepath.Join(dir, n), nil, 0)
+		if err != nil {
+			fail("parse %s: %v", n, err)
+		}
+		files = append(files, f)
+	}
+	return fset, files
+}
+
+// factsConc: the generated package (all features, a probe document with patterns, multipleOf, sums, security,
+// form and stream bodies) and the runtime packages generated code calls are searched for writes to
+// package-level variables outside init.
+func factsConc(repo string) (string, int) {
+	const doc = `{"openapi":"3.1.0","info":{"title":"t","version":"1"},
+	"servers":[{"url":"https://{r}.example.com","variables":{"r":{"default":"eu"}}}],
+	"paths":{"/a/{id}":{"post":{"operationId":"probe","security":[{"k":[]},{"b":[]}],
+	"parameters":[{"name":"id","in":"path","required":true,"schema":{"type":"string","pattern":"^[a-z]+$"}},
+	{"name":"f","in":"query","style":"deepObject","schema":{"$ref":"#/components/schemas/Q"}},
+	{"name":"h","in":"header","schema":{"type":"number","multipleOf":0.5}},
+	{"name":"c","in":"cookie","schema":{"type":"string","pattern":"(?=a)a"}}],
+	"requestBody":{"required":true,"content":{"application/json":{"schema":{"$ref":"#/components/schemas/P"}},
+	"application/x-www-form-urlencoded":{"schema":{"$ref":"#/components/schemas/Q"}},
+	"application/octet-stream":{"schema":{"type":"string","format":"binary"}}}},
+	"responses":{"200":{"description":"ok","content":{"application/json":{"schema":{"$ref":"#/components/schemas/S"}}}},
+	"404":{"description":"no","content":{"application/json":{"schema":{"$ref":"#/components/schemas/Q"}}}},
+	"default":{"description":"e","content":{"application/json":{"schema":{"$ref":"#/components/schemas/Q"}}}}}}}},
+	"webhooks":{"h":{"post":{"operationId":"hook","requestBody":{"content":{"application/json":{"schema":{"$ref":"#/components/schemas/Q"}}}},"responses":{"200":{"description":"ok"}}}}},
+	"components":{"securitySchemes":{"k":{"type":"apiKey","in":"header","name":"X-K"},"b":{"type":"http","scheme":"bearer"}},
+	"schemas":{"P":{"type":"object","required":["s"],"properties":{"s":{"type":"string","minLength":1,"default":"x","pattern":"^x"},"n":{"type":"number","multipleOf":3,"default":3},
+	"e":{"type":"string","enum":["a","b"]},"u":{"type":"array","uniqueItems":true,"items":{"type":"string"}}}},
+	"Q":{"type":"object","properties":{"a":{"type":"string"}}},
+	"S":{"oneOf":[{"$ref":"#/components/schemas/P"},{"type":"object","required":["z"],"properties":{"z":{"type":"integer"}}}]}}}}`
+	spec, err := ogen.Parse([]byte(doc))
+	if err != nil {
+		fail("conc probe document: %v", err)
+	}
+	fset := gen.FeatureSet{}
+	for _, f := range gen.AllFeatures {
+		_ = fset.Enable(f.Name)
+	}
+	g, err := gen.NewGenerator(spec, gen.Options{Generator: gen.GenerateOptions{Features: &gen.FeatureOptions{DisableAll: true, Enable: fset}}})
+	if err != nil {
+		fail("conc probe document: generator: %v", err)
+	}
+	fs := &probeFS{files: map[string][]byte{}}
+	lfs := &lockedProbeFS{in: fs}
+	if err := g.WriteSource(lfs, "api"); err != nil {
+		fail("conc probe document: write: %v", err)
+	}
+	for n := range fs.files {
+		if strings.HasSuffix(n, "_test.go") {
+			delete(fs.files, n)
+		}
+	}
+	gfset, gfiles := parseGenerated(fs.files)
+	genW := globalWrites(gfset, gfiles)
+	// which package-level variables does the generated package have at all (so that an empty list is not vacuous)
+	var genVars []string
+	for _, f := range gfiles {
+		for _, d := range f.Decls {
+			if gd, ok := d.(*ast.GenDecl); ok && gd.Tok == token.VAR {
+				for _, sp := range gd.Specs {
+					for _, n := range sp.(*ast.ValueSpec).Names {
+						if n.Name != "_" {
+							genVars = append(genVars, n.Name)
+						}
+					}
+				}
+			}
+		}
+	}
+	sort.Strings(genVars)
+	var rtW []string
+	rtPkgs := []string{"uri", "conv", "json", "validate", "ogenregex", "ogenerrors", "http", "middleware", "otelogen", "internal/bitset"}
+	for _, rp := range rtPkgs {
+		rfset, rfiles := parseDirNoTests(filepath.Join(repo, rp))
+		for _, w := range globalWrites(rfset, rfiles) {
+			rtW = append(rtW, rp+"/"+w)
+		}
+	}
+	var sb strings.Builder
+	sb.WriteString("/-! GENERATED by harness/cmd/extract (go/ast over the package the linked generator writes for a probe document, all features, and over the runtime packages of the working tree) — do not edit. -/\nnamespace Facts.Conc\n")
+	fmt.Fprintf(&sb, "/-- package-level variables of the generated package -/\ndef generatedGlobals : List String := %s\n", leanList(genVars))
+	fmt.Fprintf(&sb, "/-- statements of the generated package, outside init, that write through a package-level variable -/\ndef generatedGlobalWrites : List String := %s\n", leanList(genW))
+	fmt.Fprintf(&sb, "/-- the same for the runtime packages generated code calls (%s) -/\ndef runtimeGlobalWrites : List String := %s\n", strings.Join(rtPkgs, ", "), leanList(rtW))
+	sb.WriteString("end Facts.Conc\n")
+	return sb.String(), len(genVars) + len(genW) + len(rtW) + 1
+}
+
+type lockedProbeFS struct {
+	mu sync.Mutex
+	in *probeFS
+}
+
+func (m *lockedProbeFS) WriteFile(name string, content []byte) error {
+	m.mu.Lock()
+	defer m.mu.Unlock()
+	return m.in.WriteFile(name, content)
+}
+
 func main() {
 	repo := flag.String("repo", "/repo", "repository root")
 	out := flag.String("out", "", "output directory (lean/Ogen/Generated)")
@@ -991,6 +1235,8 @@ func main() {
 			text, n = factsErrors(*repo)
 		case "genorder":
 			text, n = factsGenOrder(*repo)
+		case "conc":
+			text, n = factsConc(*repo)
 		default:
 			fail("unknown fact set %q", name)
 		}
